@@ -107,6 +107,12 @@ def vetoes(db, ctx):
                 if not (v.get("k") == "Unary" and v.get("op") == "Neg") and any(
                         (for_loop_parts(p) if p.get("k") == "Match" else None) for p in ps):
                     rets.append((n, v))
+        # the candidate loop moved into a helper that returns Option<boundary>: its `return Ok(Some(b))` is, in the inlined view, the
+        # point where the loop is left with Some(b)
+        if n.get("k") == "BreakValue" and "e" in n and any((for_loop_parts(p) if p.get("k") == "Match" else None) for p in ps):
+            e = peel(n["e"])
+            if e.get("k") == "Call" and path_ends(e.get("callee") or "", ("Option::Some", "Some")) and e.get("args"):
+                rets.append((n, peel_casts(e["args"][0])))
     if len(rets) != 1:
         raise AnchorMissing("get_eos: the accepting `return Ok(boundary)` inside the candidate loop", "(%d found)" % len(rets))
     ret, val = rets[0]
@@ -415,3 +421,44 @@ def lookup_offsets(db, ctx):
                                                   " used WITHOUT re-basing: identical to the absolute offset only while the window starts at 0 (boundary within the "
                                                   "first 30 bytes)"))), fn=f, site=c.get("sp"))
     ctx.floor(1)
+
+
+_PATTERN_SYNTAX = set("\\-{}()|[]^$.*+?")
+
+
+def _in_pattern(ps):
+    return any(is_call(p) and (path_ends(callee(p) or "", ("fmt::format", "Regex::new", "RegexBuilder::new", "escape"))
+                               or "fmt::Arguments" in (callee(p) or "") or "fmt::format" in (callee(p) or "")) for p in ps)
+
+
+@rule("C16.pattern-fragments", "the splitter's character-class constants are regex FRAGMENTS (they carry escapes such as `\\\\(` and ranges such as `a-z`): "
+                               "each is consumed only while a pattern is being built (inside format! feeding Regex::new, or as a Regex::new argument). "
+                               "Used as a plain set of characters (`.contains(c)`, `.chars()`), the escape character itself becomes a member — a "
+                               "backslash then counts as an opening bracket and every later terminator is vetoed")
+def pattern_fragments(db, ctx):
+    frags = {k: v["str"] for k, v in db.consts.items()
+             if k.startswith("sudachi::sentence_detector::") and isinstance(v.get("str"), str) and set(v["str"]) & _PATTERN_SYNTAX}
+    if not frags:
+        raise AnchorMissing("sentence_detector: string constants with regex syntax")
+    uses = {k: [] for k in frags}
+    for f in db.fns.values():
+        if not f.hir or "::tests::" in f.key or not f.key.startswith(("sudachi::sentence_detector", "<sudachi::sentence_detector")):
+            continue
+        for x, ps in walk(f.hir):
+            if x.get("k") == "Path" and x.get("res") == "def" and x.get("path") in frags:
+                building = _in_pattern(ps)
+                if not building:
+                    # `let open = OPEN_PARENTHESIS;` — the alias is judged by its own uses
+                    let = next((p for p in reversed(ps) if p.get("k") == "Let"), None)
+                    inner = [p for p in ps[ps.index(let) + 1:]] if let is not None else None
+                    if let is not None and all(p.get("k") in ("AddrOf", "Cast", "DropTemps", "Block") for p in inner) and (let.get("pat") or {}).get("k") == "Bind":
+                        lid = let["pat"].get("lid")
+                        alias_uses = [ps2 for y, ps2 in walk(f.hir) if y.get("k") == "Path" and y.get("res") == "local" and y.get("lid") == lid]
+                        building = bool(alias_uses) and all(_in_pattern(ps2) for ps2 in alias_uses)
+                uses[x["path"]].append((f, x, building))
+    for k, us in sorted(uses.items()):
+        bad = [(f.short(), x.get("sp")) for f, x, b in us if not b]
+        ctx.ob("%s|only-in-patterns" % k.split("::")[-1], not bad,
+               "%s = %r is used %d time(s); uses outside pattern construction: %s" % (k.split("::")[-1], frags[k], len(us), bad), fn=us[0][0] if us else None,
+               nontrivial=bool(us))
+    ctx.floor(3)
